@@ -401,16 +401,21 @@ class Exec:
             parts = split_top(m.group(1))
             if all(re.match(r"(copy|move|const) ", p) for p in parts):
                 return [self.operand(p, frame, st) for p in parts]
+        m = re.fullmatch(r"Option::<.*>::Some\((.*)\)", s)
+        if m and self._balanced(m.group(1)):
+            return Opt(z3.BoolVal(True), self.operand(m.group(1), frame, st))
+        if re.fullmatch(r"Option::<.*>::None", s):
+            return Opt(z3.BoolVal(False), None)
         m = re.fullmatch(r"(\{closure@[^}]*\}|[\w:<>, ]+?) \{ (.*) \}", s)
         if m:
-            name = m.group(1).split("::")[-1].split("<")[0].strip()
+            name = re.sub(r"::<[^{}]*>$", "", m.group(1).strip()).split("::")[-1].split("<")[0].strip()
             kv = {}
             for part in split_top(m.group(2)):
                 k, v = part.split(": ", 1)
                 kv[k.strip()] = self.operand(v, frame, st)
             if name.startswith("{closure"):
                 return Struct("closure", list(kv.values()))
-            order = self.structs.get(name)
+            order = self.structs.get(name) or BUILTIN_STRUCTS.get(name)
             if order is None or set(order) != set(kv):
                 raise Unsupported("aggregate of unknown struct %s" % name)
             return Struct(name, [kv[f] for f in order])
@@ -614,6 +619,7 @@ class Exec:
         self.write_place(m.group(1), frame, st, v)
 
 
+BUILTIN_STRUCTS = {"Range": ["start", "end"]}
 BINOPS = {"Add", "Sub", "Mul", "Div", "Rem", "BitAnd", "BitOr", "BitXor", "Shl", "Shr", "Eq", "Ne", "Lt", "Le", "Gt", "Ge",
           "AddWithOverflow", "SubWithOverflow", "MulWithOverflow", "AddUnchecked", "SubUnchecked", "MulUnchecked",
           "ShlUnchecked", "ShrUnchecked"}
@@ -653,6 +659,8 @@ def m_iter_next(ex, args, st, depth):
             ck, cv = ("tmp", next(ex.next_cell)), ("tmp", next(ex.next_cell))
             st.heap[ck], st.heap[cv] = k, v
             st.heap[args[0].cell] = set_path(st.heap[args[0].cell], args[0].path, Iter(it.items, it.pos + 1))
+            if k is None:  # an iterator over single items (pixels)
+                return [(st, Opt(z3.BoolVal(True), Ref(cv)))]
             return [(st, Opt(z3.BoolVal(True), Struct("tuple", [Ref(ck), Ref(cv)])))]
         return [(st, Opt(z3.BoolVal(False), None))]
     raise Unsupported("next() on " + type(it).__name__)
@@ -699,6 +707,76 @@ def m_unwrap_or(ex, args, st, depth):
     return [(st, Int(z3.If(o.some, o.val.bv, d.bv), d.signed))]
 
 
+def m_entries_len(ex, args, st, depth):
+    """HashMap::len() of the input palette: the number of (pairwise distinct) entries"""
+    m = deref(ex, st, args[0])
+    if not isinstance(m, Entries):
+        raise Unsupported("len() of a map that is not the input palette")
+    return [(st, Int(z3.BitVecVal(len(m.items), 64), False))]
+
+
+def m_entries_get(ex, args, st, depth):
+    """HashMap::get(&k) on the input palette: Some(&entry) for the entry whose key equals k, None if no key does"""
+    m = deref(ex, st, args[0])
+    if not isinstance(m, Entries):
+        raise Unsupported("get() on a map that is not the input palette")
+    k = deref(ex, st, args[1]) if isinstance(args[1], Ref) else args[1]
+    out = []
+    for key, ent in m.items:
+        c = key.bv == k.bv
+        if is_false(c) or ex.infeasible(st.pc + [c]):
+            continue
+        s2 = st.fork(c)
+        cell = ("tmp", next(ex.next_cell))
+        s2.heap[cell] = ent
+        out.append((s2, Opt(z3.BoolVal(True), Ref(cell))))
+    none = z3.And([key.bv != k.bv for key, _e in m.items] + [z3.BoolVal(True)])
+    if not ex.infeasible(st.pc + [none]):
+        out.append((st.fork(none), Opt(z3.BoolVal(False), None)))
+    return out
+
+
+def m_range_next(ex, args, st, depth):
+    """Range::next(): start if start < end (then start += 1), else None"""
+    r = deref(ex, st, args[0])
+    lo, hi = r.fields
+    c = z3.ULT(lo.bv, hi.bv) if not lo.signed else (lo.bv < hi.bv)
+    out = []
+    if not is_false(c) and not ex.infeasible(st.pc + [c]):
+        s2 = st.fork(c)
+        s2.heap[args[0].cell] = set_path(s2.heap[args[0].cell], args[0].path, Struct("Range", [Int(z3.simplify(lo.bv + 1), lo.signed), hi]))
+        out.append((s2, Opt(z3.BoolVal(True), lo)))
+    if not is_true(c) and not ex.infeasible(st.pc + [z3.Not(c)]):
+        out.append((st.fork(z3.Not(c)), Opt(z3.BoolVal(False), None)))
+    return out
+
+
+def m_from_le_bytes(ex, args, st, depth):
+    """u32::from_le_bytes([b0, b1, b2, b3]) = b0 | b1 << 8 | b2 << 16 | b3 << 24"""
+    a = args[0]
+    return [(st, Int(z3.Concat(a[3].bv, a[2].bv, a[1].bv, a[0].bv), False))]
+
+
+def m_vec_new(ex, args, st, depth):
+    """Vec::new() / Vec::with_capacity(n): the empty vector"""
+    return [(st, VecV([]))]
+
+
+def m_vec_push(ex, args, st, depth):
+    """Vec::push(x): appends x"""
+    v = deref(ex, st, args[0])
+    st = State(dict(st.heap), list(st.pc))
+    st.heap[args[0].cell] = set_path(st.heap[args[0].cell], args[0].path, VecV(v.items + [args[1]]))
+    return [(st, UNIT)]
+
+
+def m_arr_eq(ex, args, st, depth):
+    """<[u8; N] as PartialEq>::eq: element-wise equality"""
+    a = deref(ex, st, args[0]) if isinstance(args[0], Ref) else args[0]
+    b = deref(ex, st, args[1]) if isinstance(args[1], Ref) else args[1]
+    return [(st, z3.And([x.bv == y.bv for x, y in zip(a, b)]))]
+
+
 def m_pixels(ex, args, st, depth):
     """ImageBuffer::pixels(): the pixels in row-major order"""
     im = deref(ex, st, args[0])
@@ -743,6 +821,16 @@ MODELS = [
     (r"HashMap::<u32, ColorPaletteEntry, .*>::iter", m_map_iter),
     (r"<.*Iter<'_, u32, ColorPaletteEntry> as IntoIterator>::into_iter", m_identity),
     (r"<.*Iter<'_, u32, ColorPaletteEntry> as Iterator>::next", m_iter_next),
+    (r"HashMap::<u32, ColorPaletteEntry, .*>::len", m_entries_len),
+    (r"HashMap::<u32, ColorPaletteEntry, .*>::get::<u32>", m_entries_get),
+    (r"<std::ops::Range<\w+> as IntoIterator>::into_iter", m_identity),
+    (r"<std::ops::Range<\w+> as Iterator>::next", m_range_next),
+    (r"core::num::<impl u32>::from_le_bytes", m_from_le_bytes),
+    (r"Vec::<u8>::with_capacity|Vec::<u8>::new", m_vec_new),
+    (r"Vec::<u8>::push", m_vec_push),
+    (r"<image::buffer::Pixels<'_, Rgba<u8>> as IntoIterator>::into_iter", m_identity),
+    (r"<image::buffer::Pixels<'_, Rgba<u8>> as Iterator>::next", m_iter_next),
+    (r"<\[u8; \d+\] as PartialEq>::eq", m_arr_eq),
     (r"HashMap::<u32, u8, .*>::insert", m_map_insert),
     (r"HashMap::<u32, u8, .*>::get::<u32>", m_map_get),
     (r"Option::<&?u8>::unwrap_or", m_unwrap_or),
